@@ -208,6 +208,8 @@ func twinCheck(o *out, g, t int, key []byte, a, aextra, b, bextra []byte, what s
 	o.count("twins")
 }
 
+var sharedKeyBuf = make([]byte, 128)
+
 var getterTypes = map[int][]int{
 	1: {0x0020, 0x0012, 0x0016},
 	2: {0x0001, 0x8023, 0x802b, 0x802C, 0x0004},
@@ -336,6 +338,55 @@ func runC07(o *out, thorough bool, r *rng, _ []string) map[string]interface{} {
 			// bytes after the declared length: Decode tolerates them and keeps them in Raw; a check leaves them there
 			data = append(data, r.bytes(r.pick([]int{1, 4, 8, 12, 20}))...)
 		}
+		// the verdicts do not depend on where the check is called from (a ForEach callback sees a Message whose
+		// attribute list is cut to the visited attribute while the callback runs), nor on the key living in a
+		// buffer that held another key a moment ago
+		if dm := new(stun.Message); stun.Decode(data, dm) == nil && len(dm.Attributes) > 0 {
+			direct := stun.MessageIntegrity(append([]byte(nil), key...)).Check(dm) == nil
+			directFP := stun.Fingerprint.Check(dm) == nil
+			visit := dm.Attributes[r.intn(len(dm.Attributes))].Type
+			inside, insideFP, visited := direct, directFP, false
+			snapshot := fmt.Sprint(serMsg(dm))
+			_ = dm.ForEach(visit, func(mm *stun.Message) error {
+				if !visited {
+					visited = true
+					inside = stun.MessageIntegrity(append([]byte(nil), key...)).Check(mm) == nil
+					insideFP = stun.Fingerprint.Check(mm) == nil
+				}
+				return nil
+			})
+			// inside the callback the Message is the view that starts at the visited attribute: a check whose own
+			// attribute lies before it is not in that view (by design) and is not compared
+			first := func(t stun.AttrType) int {
+				for k, a := range dm.Attributes {
+					if a.Type == t {
+						return k
+					}
+				}
+				return -1
+			}
+			if first(visit) > first(stun.AttrMessageIntegrity) {
+				inside = direct
+			}
+			if first(visit) > first(stun.AttrFingerprint) {
+				insideFP = directFP
+			}
+			if inside != direct || insideFP != directFP || fmt.Sprint(serMsg(dm)) != snapshot {
+				o.failFor("C07", "check-depends-on-the-caller", fmt.Sprintf("701 %s - 6,8 %s (inside a ForEach(%#x) callback: integrity %v, fingerprint %v; called directly: %v, %v)", fHex(data), fHex(key), int(visit), inside, insideFP, direct, directFP))
+			}
+			if len(key) <= len(sharedKeyBuf) {
+				kb := sharedKeyBuf[:len(key)]
+				copy(kb, key)
+				viaBuf := stun.MessageIntegrity(kb).Check(dm) == nil
+				for k := range kb {
+					kb[k] ^= 0x3C // the buffer now holds another key of the same length
+				}
+				other := stun.MessageIntegrity(kb).Check(dm) == nil
+				if viaBuf != direct || (other && len(kb) > 0) {
+					o.failFor("C07", "check-depends-on-the-key-buffer", fmt.Sprintf("701 %s - 6,8 %s (key in a reused buffer: %v, fresh copy: %v, after the buffer was overwritten with another key: %v)", fHex(data), fHex(key), viaBuf, direct, other))
+				}
+			}
+		}
 		ex := fill(r, r.pick([]int{0, 0, 7, 19, 20, 21, 64}), r.intn(3))
 		o.run(701, []string{fHex(data), fHex(ex), fNums(6, 8), fHex(key)}, true)
 		o.run(701, []string{fHex(data), fHex(ex), fNums(7, 0x8028), "-"}, true)
@@ -380,6 +431,26 @@ func execRoundTrip(o *out, f [][]int) []int {
 		m2.WriteHeader()
 		if pan || err2 != nil || !bytes.Equal(m2.Raw, m.Raw) {
 			o.failFor("C06", "attribute-depends-on-construction-order", "601 "+fNums(f[0]...)+" "+fNums(f[1]...)+" "+fNums(f[2]...))
+		}
+	}
+	{
+		// and built twice into one Message whose buffer is full of old bytes: every byte of the value is written
+		// (reserved fields, padding), none is inherited
+		m3 := &stun.Message{Raw: bytes.Repeat([]byte{0xEE}, len(m.Raw)+64)[:0]}
+		_ = m3.Build(stun.NewType(0xfff, 3), stun.NewTransactionIDSetter([12]byte{0xEE, 0xEE, 0xEE}), stun.RawAttribute{Type: 0x8030, Value: bytes.Repeat([]byte{0xDD}, len(m.Raw)+8)})
+		err3 := m3.Build(stun.NewType(1, 0), stun.NewTransactionIDSetter(tid), mkSetter(f[1], nil))
+		if err3 != nil || !bytes.Equal(m3.Raw, m.Raw) {
+			o.failFor("C06", "attribute-inherits-old-bytes", "601 "+fNums(f[0]...)+" "+fNums(f[1]...)+" "+fNums(f[2]...))
+		}
+	}
+	if f[1][0] == 7 && len(f[1]) == 2 {
+		// an empty reason phrase is an empty reason phrase, nil or not
+		for _, reason := range [][]byte{nil, {}} {
+			m4 := new(stun.Message)
+			err4 := m4.Build(stun.NewType(1, 0), stun.NewTransactionIDSetter(tid), stun.ErrorCodeAttribute{Code: stun.ErrorCode(f[1][1]), Reason: reason})
+			if err4 != nil || !bytes.Equal(m4.Raw, m.Raw) {
+				o.failFor("C06", "nil-and-empty-reason-differ", "601 "+fNums(f[0]...)+" "+fNums(f[1]...)+" "+fNums(f[2]...))
+			}
 		}
 	}
 	d := new(stun.Message)
